@@ -1,6 +1,8 @@
 mod engine;
 mod hist;
 mod props_hist;
+mod props_seq;
+mod stoseq;
 mod zoo;
 
 use engine::{Property, Tier};
@@ -13,6 +15,10 @@ fn registry() -> Vec<Property> {
         props_hist::c05::property(),
         props_hist::c09::property(),
         props_hist::c17::property(),
+        props_seq::c04(),
+        props_seq::c08(),
+        props_seq::c12(),
+        props_seq::c19(),
     ]
 }
 
